@@ -466,7 +466,7 @@ func (g *gen) single() op {
 	switch r.Pick(12, 18, 15, 12, 8, 8, 5, 8, 6, 8) {
 	case 0: // coin -> ERC20 (EVM-native pair)
 		o := op{Kind: "c2e", Direct: r.Chance(1, 5)}
-		o.D = g.denomOf([]int{0, 0, 2, 2, 1, 3, 6, denRfnd})
+		o.D = g.denomOf([]int{0, 0, 2, 2, 1, 3, 6, denRfnd, denNR})
 		if r.Chance(4, 5) { // a pair denom somebody holds
 			var held []int
 			for c := 0; c < nPair; c++ {
@@ -508,7 +508,7 @@ func (g *gen) single() op {
 		return o
 	case 1: // ERC20 -> coin (EVM-native pair)
 		o := op{Kind: "e2c", Direct: r.Chance(1, 5)}
-		o.C = []int{0, 0, 0, 0, 1, 1, 1, 2, 2, 2, 3, 3, 4, 9, noCodeBase}[r.Intn(15)]
+		o.C = []int{0, 0, 0, 1, 1, 1, 2, 2, 3, 3, 4, 4, 4, 4, 5, 9, noCodeBase}[r.Intn(17)]
 		if s.denomOfCtr(o.C) < 0 && r.Chance(2, 3) {
 			if len(s.pairs) > 0 {
 				o.C = s.pairs[r.Intn(len(s.pairs))][0]
@@ -536,6 +536,40 @@ func (g *gen) single() op {
 			unit = k10
 		}
 		o.X = g.amount(bal(o.I), unit, !o.Direct).String()
+		if isNR(o.C) && o.C < s.n && o.I != accM && o.I != accZero && r.Chance(3, 5) {
+			// the old-style pair: the balance-delta check alone refuses a lock that moved nothing.
+			// Initiators holding nothing at all / one unit less than the amount / exactly the amount.
+			var empty []int
+			for a := 0; a < nUsers; a++ {
+				if s.erc[o.C][a].Sign() == 0 {
+					empty = append(empty, a)
+				}
+			}
+			switch r.Pick(30, 30, 40) {
+			case 0:
+				if len(empty) > 0 {
+					o.I = empty[r.Intn(len(empty))]
+				}
+				x := big.NewInt(int64(1 + r.Intn(1000)))
+				if r.Chance(1, 2) && s.erc[o.C][accM].Sign() > 0 {
+					x.Set(s.erc[o.C][accM]) // as much as is locked
+				}
+				o.X = x.String()
+			case 1:
+				short := int64(1)
+				if r.Chance(2, 5) {
+					short = int64(2 + r.Intn(1000))
+				}
+				o.X = new(big.Int).Add(s.erc[o.C][o.I], big.NewInt(short)).String()
+			default:
+				if s.erc[o.C][o.I].Sign() > 0 {
+					o.X = s.erc[o.C][o.I].String()
+				}
+			}
+			if r.Chance(3, 4) {
+				o.R = g.user()
+			}
+		}
 		return o
 	case 2: // cosmos coin -> wrapper ERC20
 		o := op{Kind: "cos2e", Direct: r.Chance(1, 5)}
@@ -616,7 +650,7 @@ func (g *gen) single() op {
 		return o
 	case 5: // the owner of an EVM-native token mints
 		o := op{Kind: "mint"}
-		o.C = []int{0, 0, 1, 2, 2, 3}[r.Intn(6)]
+		o.C = []int{0, 0, 1, 2, 2, 3, 4, 4}[r.Intn(8)]
 		if r.Chance(1, 10) {
 			o.C = r.Intn(s.n + 1)
 		}
